@@ -337,3 +337,335 @@ Proof.
   - left. now apply digits_of_zero.
   - right. apply digits_of_no_leading_zero; lia.
 Qed.
+
+(* ------------------------------------------------------------------------------------------ *)
+(** * digit characters *)
+
+Lemma digit_val_code c d : digit_val c = Some d ->
+  (48 <= code c <= 57 /\ d = code c - 48) \/ (97 <= code c <= 122 /\ d = code c - 87) \/
+  (65 <= code c <= 90 /\ d = code c - 55).
+Proof.
+  unfold digit_val. intros H.
+  destruct ((48 <=? code c) && (code c <=? 57)) eqn:E1; [injection H as <-; lia|].
+  destruct ((97 <=? code c) && (code c <=? 122)) eqn:E2; [injection H as <-; lia|].
+  destruct ((65 <=? code c) && (code c <=? 90)) eqn:E3; [injection H as <-; lia|discriminate].
+Qed.
+
+Lemma digit_val_range c d : digit_val c = Some d -> 0 <= d < 36.
+Proof. intros H. apply digit_val_code in H. lia. Qed.
+
+Lemma digit_in_Some base c d : digit_in base c = Some d <-> digit_val c = Some d /\ d < base.
+Proof.
+  unfold digit_in. destruct (digit_val c) as [d'|]; [|split; [discriminate|intros [? _]; discriminate]].
+  case_ltb d' base; split.
+  - intros E; injection E as ->. auto.
+  - intros [E _]. exact E.
+  - discriminate.
+  - intros [E ?]. injection E as ->. lia.
+Qed.
+
+Lemma digit_in_range base c d : digit_in base c = Some d -> 0 <= d < base.
+Proof. intros H. apply digit_in_Some in H. destruct H as [H ?]. apply digit_val_range in H. lia. Qed.
+
+Lemma digit_in_code base c d : digit_in base c = Some d ->
+  (48 <= code c <= 57 \/ 97 <= code c <= 122 \/ 65 <= code c <= 90).
+Proof. intros H. apply digit_in_Some in H. destruct H as [H _]. apply digit_val_code in H. lia. Qed.
+
+Lemma digit_in_mono base base' c d : base <= base' -> digit_in base c = Some d -> digit_in base' c = Some d.
+Proof. intros Hb H. apply digit_in_Some in H. apply digit_in_Some. split; [tauto|lia]. Qed.
+
+Lemma digit_val_digit_char d : 0 <= d < 36 -> digit_val (digit_char d) = Some d.
+Proof.
+  intros Hd. unfold digit_char, digit_val. case_ltb d 10; rewrite code_chr by lia.
+  - destruct ((48 <=? 48 + d) && (48 + d <=? 57)) eqn:E1; [f_equal; lia|lia].
+  - destruct ((48 <=? 87 + d) && (87 + d <=? 57)) eqn:E1; [lia|].
+    destruct ((97 <=? 87 + d) && (87 + d <=? 122)) eqn:E2; [f_equal; lia|lia].
+Qed.
+
+Lemma digit_val_digit_char_upper d : 0 <= d < 36 -> digit_val (digit_char_upper d) = Some d.
+Proof.
+  intros Hd. unfold digit_char_upper, digit_val. case_ltb d 10; rewrite code_chr by lia.
+  - destruct ((48 <=? 48 + d) && (48 + d <=? 57)) eqn:E1; [f_equal; lia|lia].
+  - destruct ((48 <=? 55 + d) && (55 + d <=? 57)) eqn:E1; [lia|].
+    destruct ((97 <=? 55 + d) && (55 + d <=? 122)) eqn:E2; [lia|].
+    destruct ((65 <=? 55 + d) && (55 + d <=? 90)) eqn:E3; [f_equal; lia|lia].
+Qed.
+
+(* generalised: any base up to 36 (the task statement has 2 <= base <= 16) *)
+Lemma digit_in_digit_char_gen base d : base <= 36 -> 0 <= d < base -> digit_in base (digit_char d) = Some d.
+Proof. intros Hb Hd. apply digit_in_Some. split; [apply digit_val_digit_char; lia|lia]. Qed.
+
+Lemma digit_in_digit_char_upper_gen base d : base <= 36 -> 0 <= d < base ->
+  digit_in base (digit_char_upper d) = Some d.
+Proof. intros Hb Hd. apply digit_in_Some. split; [apply digit_val_digit_char_upper; lia|lia]. Qed.
+
+Lemma digit_in_digit_char base d : 2 <= base <= 16 -> 0 <= d < base -> digit_in base (digit_char d) = Some d.
+Proof. intros Hb Hd. apply digit_in_digit_char_gen; lia. Qed.
+
+Lemma digit_in_digit_char_upper base d : 2 <= base <= 16 -> 0 <= d < base ->
+  digit_in base (digit_char_upper d) = Some d.
+Proof. intros Hb Hd. apply digit_in_digit_char_upper_gen; lia. Qed.
+
+Lemma digit_char_0 : digit_char 0 = ch_0.
+Proof. reflexivity. Qed.
+Lemma digit_char_upper_0 : digit_char_upper 0 = ch_0.
+Proof. reflexivity. Qed.
+
+Lemma code_digit_char d : 0 <= d < 36 -> code (digit_char d) = if d <? 10 then 48 + d else 87 + d.
+Proof. intros. unfold digit_char. case_ltb d 10; apply code_chr; lia. Qed.
+
+Lemma code_digit_char_upper d : 0 <= d < 36 -> code (digit_char_upper d) = if d <? 10 then 48 + d else 55 + d.
+Proof. intros. unfold digit_char_upper. case_ltb d 10; apply code_chr; lia. Qed.
+
+Lemma is_digit_digit_char d : 0 <= d < 10 -> is_digit (digit_char d) = true.
+Proof. intros H. unfold is_digit. rewrite code_digit_char by lia. case_ltb d 10; lia. Qed.
+
+Lemma is_digit_iff c : is_digit c = true <-> exists d, digit_in 10 c = Some d.
+Proof.
+  unfold is_digit. split.
+  - intros H. exists (code c - 48). apply digit_in_Some. unfold digit_val. rewrite H. split; [reflexivity|lia].
+  - intros [d H]. apply digit_in_Some in H. destruct H as [H Hd]. apply digit_val_code in H. lia.
+Qed.
+
+(* character classes of digit characters: never whitespace, sign, underscore, or a base-prefix letter *)
+Definition digit_of (base : Z) (c : ascii) : Prop := exists d, digit_in base c = Some d.
+Definition all_digits (base : Z) (l : list ascii) : Prop := Forall (digit_of base) l.
+Definition dval (base : Z) (c : ascii) : Z := match digit_in base c with Some d => d | None => 0 end.
+
+Lemma digit_not_space_int base c : digit_of base c -> is_space_int c = false.
+Proof. intros [d H]. apply digit_in_code in H. unfold is_space_int. lia. Qed.
+
+Lemma digit_not_space base c : digit_of base c -> is_space c = false.
+Proof. intros [d H]. apply digit_in_code in H. unfold is_space. lia. Qed.
+
+Lemma digit_not_char base c x : digit_of base c ->
+  (48 <=? code x) && (code x <=? 57) || (97 <=? code x) && (code x <=? 122) || (65 <=? code x) && (code x <=? 90) = false ->
+  ascii_eqb c x = false.
+Proof. intros [d H] Hx. apply digit_in_code in H. rewrite ascii_eqb_code. lia. Qed.
+
+Lemma digit_not_us base c : digit_of base c -> ascii_eqb c ch_us = false.
+Proof. intros H. eapply digit_not_char; [exact H|reflexivity]. Qed.
+Lemma digit_not_plus base c : digit_of base c -> ascii_eqb c ch_plus = false.
+Proof. intros H. eapply digit_not_char; [exact H|reflexivity]. Qed.
+Lemma digit_not_minus base c : digit_of base c -> ascii_eqb c ch_minus = false.
+Proof. intros H. eapply digit_not_char; [exact H|reflexivity]. Qed.
+
+Lemma digit_not_prefix base c : digit_of base c -> is_prefix_char base c = false.
+Proof.
+  intros [d H]. apply digit_in_Some in H. destruct H as [H Hd]. apply digit_val_code in H.
+  unfold is_prefix_char. rewrite !ascii_eqb_code.
+  change (code "x") with 120. change (code "X") with 88. change (code "b") with 98.
+  change (code "B") with 66. change (code "o") with 111. change (code "O") with 79.
+  case_eqb base 16; [lia|]. case_eqb base 2; [lia|]. case_eqb base 8; [lia|]. reflexivity.
+Qed.
+
+(* a character that is not a digit of the base does not occur among digit characters *)
+Lemma all_digits_no_char base c l : all_digits base l -> digit_in base c = None ->
+  existsb (ascii_eqb c) l = false.
+Proof.
+  intros HF Hc. induction HF as [|a l [d Ha] _ IH]; [reflexivity|].
+  cbn [existsb]. rewrite IH, orb_false_r. apply ascii_eqb_neq. intros ->. congruence.
+Qed.
+
+Lemma contains_char_all_digits base c s : all_digits base (chars s) -> digit_in base c = None ->
+  contains_char c s = false.
+Proof. apply all_digits_no_char. Qed.
+
+Lemma digit_in_None_nondigit base c : digit_val c = None -> digit_in base c = None.
+Proof. unfold digit_in. now intros ->. Qed.
+
+Lemma all_digits_mono base base' l : base <= base' -> all_digits base l -> all_digits base' l.
+Proof.
+  intros Hb HF. eapply Forall_impl; [|exact HF]. intros c [d H]. exists d. eapply digit_in_mono; eauto.
+Qed.
+
+Lemma all_digits_app base a b : all_digits base (a ++ b) <-> all_digits base a /\ all_digits base b.
+Proof. apply Forall_app. Qed.
+
+Lemma all_digits_map_digit_char base ds : base <= 36 -> Forall (fun d => 0 <= d < base) ds ->
+  all_digits base (map digit_char ds).
+Proof.
+  intros Hb HF. induction HF as [|d ds Hd _ IH]; constructor; [|exact IH].
+  exists d. now apply digit_in_digit_char_gen.
+Qed.
+
+Lemma all_digits_map_digit_char_upper base ds : base <= 36 -> Forall (fun d => 0 <= d < base) ds ->
+  all_digits base (map digit_char_upper ds).
+Proof.
+  intros Hb HF. induction HF as [|d ds Hd _ IH]; constructor; [|exact IH].
+  exists d. now apply digit_in_digit_char_upper_gen.
+Qed.
+
+Lemma map_dval_digit_char base ds : base <= 36 -> Forall (fun d => 0 <= d < base) ds ->
+  map (dval base) (map digit_char ds) = ds.
+Proof.
+  intros Hb HF. induction HF as [|d ds Hd _ IH]; [reflexivity|].
+  cbn [map]. rewrite IH. unfold dval. now rewrite digit_in_digit_char_gen.
+Qed.
+
+Lemma map_dval_digit_char_upper base ds : base <= 36 -> Forall (fun d => 0 <= d < base) ds ->
+  map (dval base) (map digit_char_upper ds) = ds.
+Proof.
+  intros Hb HF. induction HF as [|d ds Hd _ IH]; [reflexivity|].
+  cbn [map]. rewrite IH. unfold dval. now rewrite digit_in_digit_char_upper_gen.
+Qed.
+
+Lemma map_dval_range base l : all_digits base l -> Forall (fun d => 0 <= d < base) (map (dval base) l).
+Proof.
+  intros HF. induction HF as [|c l [d Hc] _ IH]; cbn [map]; constructor; [|exact IH].
+  unfold dval. rewrite Hc. eapply digit_in_range; eauto.
+Qed.
+
+(* ---- characters produced by the formatters ---- *)
+
+Definition fmt_digit (up : bool) : Z -> ascii := if up then digit_char_upper else digit_char.
+
+Lemma fmt_nat_eq base up n : fmt_nat base up n = map (fmt_digit up) (digits_of base n).
+Proof. reflexivity. Qed.
+
+Lemma all_digits_map_fmt_digit base up ds : base <= 36 -> Forall (fun d => 0 <= d < base) ds ->
+  all_digits base (map (fmt_digit up) ds).
+Proof. destruct up; [apply all_digits_map_digit_char_upper|apply all_digits_map_digit_char]. Qed.
+
+Lemma map_dval_fmt_digit base up ds : base <= 36 -> Forall (fun d => 0 <= d < base) ds ->
+  map (dval base) (map (fmt_digit up) ds) = ds.
+Proof. destruct up; [apply map_dval_digit_char_upper|apply map_dval_digit_char]. Qed.
+
+Lemma fmt_nat_all_digits base up n : 2 <= base <= 36 -> 0 <= n -> all_digits base (fmt_nat base up n).
+Proof.
+  intros Hb Hn. rewrite fmt_nat_eq. apply all_digits_map_fmt_digit; [lia|]. apply digits_of_range; lia.
+Qed.
+
+Lemma fmt_nat_chars base up n : 2 <= base <= 16 -> 0 <= n ->
+  Forall (fun c => exists d, digit_in base c = Some d) (fmt_nat base up n).
+Proof. intros Hb Hn. apply (fmt_nat_all_digits base up n); lia. Qed.
+
+Lemma fmt_nat_nonempty base up n : fmt_nat base up n <> [].
+Proof.
+  rewrite fmt_nat_eq. pose proof (digits_of_nonempty base n). destruct (digits_of base n); [congruence|discriminate].
+Qed.
+
+Lemma fmt_nat_length base up n : List.length (fmt_nat base up n) = List.length (digits_of base n).
+Proof. rewrite fmt_nat_eq. apply map_length. Qed.
+
+Lemma fmt_nat_dvals base up n : 2 <= base <= 36 -> 0 <= n ->
+  map (dval base) (fmt_nat base up n) = digits_of base n.
+Proof. intros Hb Hn. rewrite fmt_nat_eq. apply map_dval_fmt_digit; [lia|]. apply digits_of_range; lia. Qed.
+
+Lemma repeat_char_repeat c k : repeat_char c k = repeat c k.
+Proof. induction k; cbn; congruence. Qed.
+
+Lemma repeat_char_length c k : List.length (repeat_char c k) = k.
+Proof. rewrite repeat_char_repeat. apply repeat_length. Qed.
+
+Lemma digit_of_ch_0 base : 0 < base -> digit_of base ch_0.
+Proof. intros Hb. exists 0. apply digit_in_Some. split; [reflexivity|lia]. Qed.
+
+Lemma dval_ch_0 base : dval base ch_0 = 0.
+Proof. unfold dval, digit_in. change (digit_val ch_0) with (Some 0). cbv beta iota. destruct (0 <? base); reflexivity. Qed.
+
+Lemma all_digits_repeat_0 base k : 0 < base -> all_digits base (repeat_char ch_0 k).
+Proof. intros Hb. induction k; cbn; constructor; [now apply digit_of_ch_0|assumption]. Qed.
+
+Lemma pad0_all_digits base k l : 0 < base -> all_digits base l -> all_digits base (pad0 k l).
+Proof. intros Hb Hl. unfold pad0. apply all_digits_app. split; [now apply all_digits_repeat_0|exact Hl]. Qed.
+
+Lemma map_dval_pad0 base k l :
+  map (dval base) (pad0 k l) = repeat 0 (k - List.length l) ++ map (dval base) l.
+Proof.
+  unfold pad0. rewrite map_app. f_equal. induction (k - List.length l)%nat as [|j IH]; [reflexivity|].
+  cbn [repeat_char map repeat]. now rewrite IH, dval_ch_0.
+Qed.
+
+Lemma pad0_length k l : (List.length l <= k)%nat -> List.length (pad0 k l) = k.
+Proof. intros H. unfold pad0. rewrite app_length, repeat_char_length. lia. Qed.
+
+Lemma pad0_length_ge k l : (k <= List.length l)%nat -> pad0 k l = l.
+Proof. intros H. unfold pad0. replace (k - List.length l)%nat with 0%nat by lia. reflexivity. Qed.
+
+Lemma pad0_nonempty k l : l <> [] -> pad0 k l <> [].
+Proof. unfold pad0. intros H E. apply app_eq_nil in E. tauto. Qed.
+
+(* chars of each formatter are digits of its base (for n >= 0) *)
+Lemma fmt_d_nonneg n : 0 <= n -> fmt_d n = str_of (fmt_nat 10 false n).
+Proof. intros H. unfold fmt_d. case_ltb n 0; [lia|reflexivity]. Qed.
+Lemma fmt_x_nonneg n : 0 <= n -> fmt_x n = str_of (fmt_nat 16 false n).
+Proof. intros H. unfold fmt_x. case_ltb n 0; [lia|reflexivity]. Qed.
+Lemma fmt_X_nonneg n : 0 <= n -> fmt_X n = str_of (fmt_nat 16 true n).
+Proof. intros H. unfold fmt_X. case_ltb n 0; [lia|reflexivity]. Qed.
+Lemma fmt_d_neg n : n < 0 -> fmt_d n = String ch_minus (fmt_d (- n)).
+Proof. intros H. unfold fmt_d. case_ltb n 0; [|lia]. case_ltb (- n) 0; [lia|reflexivity]. Qed.
+Lemma fmt_x_neg n : n < 0 -> fmt_x n = String ch_minus (fmt_x (- n)).
+Proof. intros H. unfold fmt_x. case_ltb n 0; [|lia]. case_ltb (- n) 0; [lia|reflexivity]. Qed.
+Lemma fmt_X_neg n : n < 0 -> fmt_X n = String ch_minus (fmt_X (- n)).
+Proof. intros H. unfold fmt_X. case_ltb n 0; [|lia]. case_ltb (- n) 0; [lia|reflexivity]. Qed.
+
+Lemma fmt_d_digits n : 0 <= n -> all_digits 10 (chars (fmt_d n)).
+Proof. intros H. rewrite fmt_d_nonneg, chars_str_of by lia. apply fmt_nat_all_digits; lia. Qed.
+Lemma fmt_x_hexdigits n : 0 <= n -> all_digits 16 (chars (fmt_x n)).
+Proof. intros H. rewrite fmt_x_nonneg, chars_str_of by lia. apply fmt_nat_all_digits; lia. Qed.
+Lemma fmt_X_hexdigits n : 0 <= n -> all_digits 16 (chars (fmt_X n)).
+Proof. intros H. rewrite fmt_X_nonneg, chars_str_of by lia. apply fmt_nat_all_digits; lia. Qed.
+Lemma fmt_x_pad_hexdigits k n : 0 <= n -> all_digits 16 (chars (fmt_x_pad k n)).
+Proof. intros H. unfold fmt_x_pad. rewrite chars_str_of. apply pad0_all_digits; [lia|]. apply fmt_nat_all_digits; lia. Qed.
+Lemma fmt_X_pad_hexdigits k n : 0 <= n -> all_digits 16 (chars (fmt_X_pad k n)).
+Proof. intros H. unfold fmt_X_pad. rewrite chars_str_of. apply pad0_all_digits; [lia|]. apply fmt_nat_all_digits; lia. Qed.
+Lemma fmt_d_pad_digits k n : 0 <= n -> all_digits 10 (chars (fmt_d_pad k n)).
+Proof. intros H. unfold fmt_d_pad. rewrite chars_str_of. apply pad0_all_digits; [lia|]. apply fmt_nat_all_digits; lia. Qed.
+Lemma fmt_b_pad_bits k n : 0 <= n -> all_digits 2 (chars (fmt_b_pad k n)).
+Proof. intros H. unfold fmt_b_pad. rewrite chars_str_of. apply pad0_all_digits; [lia|]. apply fmt_nat_all_digits; lia. Qed.
+
+(* consequences: no '.', ':', '/', '-', '+', '_', ' ', 'x', 'X', whitespace ... in a printed numeral *)
+Lemma fmt_d_no_char c n : 0 <= n -> is_digit c = false -> contains_char c (fmt_d n) = false.
+Proof.
+  intros Hn Hc. eapply contains_char_all_digits; [now apply fmt_d_digits|].
+  destruct (digit_in 10 c) as [d|] eqn:E; [|reflexivity].
+  assert (is_digit c = true) by (apply is_digit_iff; eauto). congruence.
+Qed.
+
+Lemma fmt_d_pad_no_char c k n : 0 <= n -> is_digit c = false -> contains_char c (fmt_d_pad k n) = false.
+Proof.
+  intros Hn Hc. eapply contains_char_all_digits; [now apply fmt_d_pad_digits|].
+  destruct (digit_in 10 c) as [d|] eqn:E; [|reflexivity].
+  assert (is_digit c = true) by (apply is_digit_iff; eauto). congruence.
+Qed.
+
+Lemma fmt_x_no_char c n : 0 <= n -> digit_in 16 c = None -> contains_char c (fmt_x n) = false.
+Proof. intros Hn Hc. eapply contains_char_all_digits; [now apply fmt_x_hexdigits|exact Hc]. Qed.
+Lemma fmt_X_no_char c n : 0 <= n -> digit_in 16 c = None -> contains_char c (fmt_X n) = false.
+Proof. intros Hn Hc. eapply contains_char_all_digits; [now apply fmt_X_hexdigits|exact Hc]. Qed.
+Lemma fmt_x_pad_no_char c k n : 0 <= n -> digit_in 16 c = None -> contains_char c (fmt_x_pad k n) = false.
+Proof. intros Hn Hc. eapply contains_char_all_digits; [now apply fmt_x_pad_hexdigits|exact Hc]. Qed.
+Lemma fmt_X_pad_no_char c k n : 0 <= n -> digit_in 16 c = None -> contains_char c (fmt_X_pad k n) = false.
+Proof. intros Hn Hc. eapply contains_char_all_digits; [now apply fmt_X_pad_hexdigits|exact Hc]. Qed.
+Lemma fmt_b_pad_no_char c k n : 0 <= n -> digit_in 2 c = None -> contains_char c (fmt_b_pad k n) = false.
+Proof. intros Hn Hc. eapply contains_char_all_digits; [now apply fmt_b_pad_bits|exact Hc]. Qed.
+
+Lemma fmt_x_no_colon n : 0 <= n -> contains_char ":" (fmt_x n) = false.
+Proof. intros. now apply fmt_x_no_char. Qed.
+Lemma fmt_x_no_dot n : 0 <= n -> contains_char "." (fmt_x n) = false.
+Proof. intros. now apply fmt_x_no_char. Qed.
+Lemma fmt_x_no_slash n : 0 <= n -> contains_char "/" (fmt_x n) = false.
+Proof. intros. now apply fmt_x_no_char. Qed.
+Lemma fmt_x_no_minus n : 0 <= n -> contains_char "-" (fmt_x n) = false.
+Proof. intros. now apply fmt_x_no_char. Qed.
+Lemma fmt_x_no_x n : 0 <= n -> contains_char "x" (fmt_x n) = false.
+Proof. intros. now apply fmt_x_no_char. Qed.
+Lemma fmt_d_no_dot n : 0 <= n -> contains_char "." (fmt_d n) = false.
+Proof. intros. now apply fmt_d_no_char. Qed.
+Lemma fmt_d_no_colon n : 0 <= n -> contains_char ":" (fmt_d n) = false.
+Proof. intros. now apply fmt_d_no_char. Qed.
+Lemma fmt_d_no_slash n : 0 <= n -> contains_char "/" (fmt_d n) = false.
+Proof. intros. now apply fmt_d_no_char. Qed.
+Lemma fmt_d_no_minus n : 0 <= n -> contains_char "-" (fmt_d n) = false.
+Proof. intros. now apply fmt_d_no_char. Qed.
+Lemma fmt_d_no_space n : 0 <= n -> contains_char " " (fmt_d n) = false.
+Proof. intros. now apply fmt_d_no_char. Qed.
+Lemma fmt_x_pad_no_colon k n : 0 <= n -> contains_char ":" (fmt_x_pad k n) = false.
+Proof. intros. now apply fmt_x_pad_no_char. Qed.
+Lemma fmt_x_pad_no_dot k n : 0 <= n -> contains_char "." (fmt_x_pad k n) = false.
+Proof. intros. now apply fmt_x_pad_no_char. Qed.
+Lemma fmt_X_pad_no_minus k n : 0 <= n -> contains_char "-" (fmt_X_pad k n) = false.
+Proof. intros. now apply fmt_X_pad_no_char. Qed.
+Lemma fmt_X_pad_no_colon k n : 0 <= n -> contains_char ":" (fmt_X_pad k n) = false.
+Proof. intros. now apply fmt_X_pad_no_char. Qed.
